@@ -215,6 +215,32 @@ pub fn items(tier: Tier, id: &str) -> Vec<Item> {
             out.push(Item { cfgs: c.to_vec(), f32_too: false });
         }
     }
+    if id == "C03" || id == "C04" || id == "C09" || id == "C10" {
+        // narrow adjustment ranges and every small chunk size: internal buffer lengths are
+        // truncated products of the range and the needed input, so whether a buffer is one frame
+        // short depends on the fractional part of max_relative_ratio * ceil(chunk / ratio)
+        let ms: Vec<f64> = if tier == Tier::Quick { vec![1.1] } else { vec![1.02, 1.07, 1.1, 1.2] };
+        let mut chunks: Vec<usize> = (1..=16).collect();
+        chunks.extend([480, 1024]);
+        for &m in &ms {
+            for ratio in [0.5, 1.0, 2.0] {
+                let mut cfgs = Vec::new();
+                for &chunk in &chunks {
+                    for kind in [Kind::SI, Kind::SO] {
+                        cfgs.push(Cfg::sinc(kind, ratio, m, chunk, 8, 2, Interp::Cubic, Kernel::Probe));
+                    }
+                    for kind in [Kind::FI, Kind::FO] {
+                        for d in [Degree::Cubic, Degree::Septic] {
+                            cfgs.push(Cfg::fast(kind, ratio, m, chunk, d));
+                        }
+                    }
+                }
+                for c in cfgs.chunks(18) {
+                    out.push(Item { cfgs: c.to_vec(), f32_too: false });
+                }
+            }
+        }
+    }
     if id == "C17" {
         // long filters with oversampling factors that are not powers of two (160 is the
         // ratio-matched choice for 44.1 -> 48 kHz): table positions x/factor are not exact in
